@@ -93,6 +93,25 @@ pub const HELP_COMMAND_SHORT: &str = "h";
 
 type Err<'a> = extra::Err<Rich<'a, char>>;
 
+/// Decimal number. A value that does not fit into `T` is reported as a parse error
+/// (the alternative that reads the number still matches, so the error is not masked
+/// by a less specific alternative).
+pub fn number<'a, T>() -> impl chumsky::Parser<'a, &'a str, T, Err<'a>> + Clone
+where
+    T: std::str::FromStr + Default,
+    T::Err: ToString,
+{
+    text::int(10)
+        .from_str::<T>()
+        .validate(|res, e, emitter| match res {
+            Ok(num) => num,
+            Err(err) => {
+                emitter.emit(Rich::custom(e.span(), err));
+                T::default()
+            }
+        })
+}
+
 pub fn hex<'a>() -> impl chumsky::Parser<'a, &'a str, usize, Err<'a>> + Clone {
     let prefix = just("0x").or(just("0X"));
     prefix
@@ -100,7 +119,13 @@ pub fn hex<'a>() -> impl chumsky::Parser<'a, &'a str, usize, Err<'a>> + Clone {
             text::digits(16)
                 .at_least(1)
                 .to_slice()
-                .map(|s: &str| usize::from_str_radix(s, 16).unwrap()),
+                .validate(|s: &str, e, emitter| match usize::from_str_radix(s, 16) {
+                    Ok(num) => num,
+                    Err(err) => {
+                        emitter.emit(Rich::custom(e.span(), err));
+                        0
+                    }
+                }),
         )
         .padded()
         .labelled("hexidecimal number")
@@ -128,15 +153,13 @@ pub fn brkpt_at_line_parser<'a>() -> impl chumsky::Parser<'a, &'a str, Breakpoin
         .repeated()
         .to_slice()
         .then_ignore(just(':'))
-        .then(text::int(10).from_str().unwrapped())
+        .then(number())
         .map(|(file, line): (&str, u64)| BreakpointIdentity::Line(file.trim().to_string(), line))
         .padded()
 }
 
 pub fn brkpt_number<'a>() -> impl chumsky::Parser<'a, &'a str, BreakpointIdentity, Err<'a>> {
-    text::int(10)
-        .from_str()
-        .unwrapped()
+    number()
         .map(|number: u32| BreakpointIdentity::Number(number))
         .padded()
 }
@@ -342,9 +365,7 @@ impl Command {
                     .to(Command::SourceCode(source_code::Command::Asm)),
                 sub_op(SOURCE_COMMAND_FUNCTION_SUBCOMMAND)
                     .to(Command::SourceCode(source_code::Command::Function)),
-                text::int(10)
-                    .from_str()
-                    .unwrapped()
+                number()
                     .map(|num| Command::SourceCode(source_code::Command::Range(num)))
                     .padded(),
             )))
@@ -399,9 +420,7 @@ impl Command {
             .ignore_then(choice((
                 sub_op2_w_arg(WATCH_REMOVE_SUBCOMMAND, WATCH_REMOVE_SUBCOMMAND_SHORT)
                     .ignore_then(choice((
-                        text::int(10)
-                            .from_str()
-                            .unwrapped()
+                        number()
                             .map(|number: u32| WatchpointIdentity::Number(number))
                             .padded(),
                         watchpoint_at_address(),
@@ -459,9 +478,7 @@ impl Command {
                 sub_op(THREAD_COMMAND_CURRENT_SUBCOMMAND)
                     .to(Command::Thread(thread::Command::Current)),
                 sub_op_w_arg(THREAD_COMMAND_SWITCH_SUBCOMMAND)
-                    .ignore_then(text::int(10))
-                    .from_str()
-                    .unwrapped()
+                    .ignore_then(number())
                     .map(|num| Command::Thread(thread::Command::Switch(num)))
                     .padded(),
             )))
@@ -471,7 +488,7 @@ impl Command {
             .ignore_then(choice((
                 sub_op(FRAME_COMMAND_INFO_SUBCOMMAND).to(Command::Frame(frame::Command::Info)),
                 sub_op(FRAME_COMMAND_SWITCH_SUBCOMMAND)
-                    .ignore_then(text::int(10).from_str().unwrapped())
+                    .ignore_then(number())
                     .map(|num| Command::Frame(frame::Command::Switch(num)))
                     .padded(),
             )))
@@ -527,18 +544,14 @@ impl Command {
                         trigger::Command::AttachToDefined(trigger::TriggerEvent::Any),
                     ),
                     sub_op(TRIGGER_COMMAND_BRKPT_TRIGGER_SUBCOMMAND)
-                        .ignore_then(text::int(10))
-                        .from_str()
-                        .unwrapped()
+                        .ignore_then(number())
                         .map(|num| {
                             trigger::Command::AttachToDefined(trigger::TriggerEvent::Breakpoint(
                                 num,
                             ))
                         }),
                     sub_op(TRIGGER_COMMAND_WP_TRIGGER_SUBCOMMAND)
-                        .ignore_then(text::int(10))
-                        .from_str()
-                        .unwrapped()
+                        .ignore_then(number())
                         .map(|num| {
                             trigger::Command::AttachToDefined(trigger::TriggerEvent::Watchpoint(
                                 num,
